@@ -33,16 +33,19 @@ class HyperLogLogWCache:
         self.M[j] = max(self.M[j], rho)
 
     def add(self, value):
-        if len(self.warmup_set) < self.warmup_size and not self.hll_flag:
+        if self.hll_flag:
+            self._hasher_update(value)
+        elif len(self.warmup_set) < self.warmup_size or value in self.warmup_set:
+            # exact phase; re-adding a known value never triggers the switch
             self.warmup_set.add(value)
-        elif not self.hll_flag:
-            if not self.hll_flag:
-                self.M = np.zeros(self.m)
-                for element in self.warmup_set:
-                    self._hasher_update(element)
-                self.warmup_set = {}
-            self.hll_flag = True
         else:
+            # first value beyond the warm-up capacity: move the set into the
+            # registers and count the incoming value as well
+            self.M = np.zeros(self.m)
+            for element in self.warmup_set:
+                self._hasher_update(element)
+            self.warmup_set = {}
+            self.hll_flag = True
             self._hasher_update(value)
 
     def __len__(self):
